@@ -424,7 +424,8 @@ func findTreadClause(p *Prog, mt *ssa.Function, fcallParam ssa.Value) *treadClau
 			return tc
 		}
 	}
-	// delegated: every exit of the clause returns the result of one helper call that receives fcall and the message
+	// delegated: every exit of the clause returns the result of one helper call that receives fcall and the message —
+	// or the clause calls a helper without result and returns nil (`ch.clampTread(fcall, msg); return nil`)
 	var deleg *ssa.Call
 	n, other := 0, 0
 	for _, ret := range returnSites(mt) {
@@ -437,6 +438,37 @@ func findTreadClause(p *Prog, mt *ssa.Function, fcallParam ssa.Value) *treadClau
 					n++
 				}
 				deleg = c
+				continue
+			}
+		}
+		if isNilConst(ret.Results[0]) {
+			// the only thing the clause does before this return is one helper call handed fcall
+			var hc *ssa.Call
+			cnt := 0
+			eachInstr(mt, func(in ssa.Instruction) {
+				c, ok := in.(*ssa.Call)
+				if !ok || !instrDominates(c, ret.At()) {
+					return
+				}
+				okIn := false
+				for _, cd := range condsAtInstr(c) {
+					if nc := normCond(cd); nc.V == tc.okv && nc.Truth {
+						okIn = true
+					}
+				}
+				if !okIn {
+					return
+				}
+				if g := staticCallee(&c.Call); g != nil && g.Blocks != nil && p.InModule(g) && g != mt && g.Signature.Results().Len() == 0 {
+					hc = c
+					cnt++
+				}
+			})
+			if cnt == 1 {
+				if deleg != hc {
+					n++
+				}
+				deleg = hc
 				continue
 			}
 		}
@@ -637,7 +669,8 @@ func c02TreadFit(r *Run, fa *FA, tc *treadClause) {
 	}
 	nRet := 0
 	for _, ret := range returnSites(mt) {
-		if !tc.inClause(ret) || len(ret.Results) != 1 || !isNilConst(ret.Results[0]) {
+		// (a helper without result: every return is an exit of the clause on which the message goes out)
+		if !tc.inClause(ret) || !((len(ret.Results) == 0 && mt.Signature.Results().Len() == 0) || (len(ret.Results) == 1 && isNilConst(ret.Results[0]))) {
 			continue
 		}
 		nRet++
